@@ -318,6 +318,8 @@ def gen_program(rng, backend: str, initial) -> list:
             b = gen_name(rng, pool if rng.random() < 0.25 else None, tame)
             if rng.random() < 0.1:
                 b = a + '/' + rng.choice(['b', 'c/d'])
+            elif rng.random() < 0.08:
+                b = 'INBOX/' + rng.choice(TAME)
             op = ('rename', a, b)
             pool.append(b)
         elif r < 0.72:
@@ -702,7 +704,7 @@ def sec_glob(ctx) -> None:
     alphabet = ['a', 'b', '/', '*', '%', '\n', '.', '\\', '[', ']', '^', '$', '(', '|', '?', '+',
                 'é', 'ı', 'I', 'i', 'N', 'n', 'B', 'O', 'X', 'x', ' ', '\r', '\x00', '-',
                 '\U0001f600', '{', 'K', 'K']
-    n = ctx.scale(1500, 20000)
+    n = ctx.scale(1500, 8000)
     cases, keep = [], []
     ci_cases, ci_keep = [], []
     for _ in range(n):
@@ -756,7 +758,7 @@ def sec_glob(ctx) -> None:
     ctx.sample({'glob_case': repr(keep[-1])})
     JOBS.add('glob_random', HEADER, 'list N * list N * bool', cases, 'chk_glob',
              lambda i: ctx.disagreement('glob_random', {'query': keep[i][0], 'name': keep[i][1],
-                                                        'impl': impl_match(*keep[i])}), shard=600)
+                                                        'impl': impl_match(*keep[i])}), shard=1000)
     JOBS.add('glob_inbox', HEADER, 'list N * bool', ci_cases, 'chk_glob_inbox',
              lambda i: ctx.disagreement('glob_inbox', {'query': ci_keep[i],
                                                        'impl': impl_match(ci_keep[i], 'INBOX')}),
@@ -767,7 +769,7 @@ def sec_tree(ctx) -> None:
     """ListTree.update/list/get/get_renames against the path-list model"""
     from pymap.listtree import ListTree
     rng = ctx.rng
-    n = ctx.scale(600, 8000)
+    n = ctx.scale(500, 3000)
     lc, gc, rc, keep = [], [], [], []
     small = ['', '/', '//', 'a', 'a/', '/a', 'a/b', 'a//b', 'a/b/c', 'b', 'INBOX', 'INBOX/a', 'b/a']
     for _ in range(n):
@@ -787,7 +789,12 @@ def sec_tree(ctx) -> None:
         gc.append(T.pair(T.lst(U.enc_name(x) for x in names) if names else '(@nil name)',
                          U.enc_name(a),
                          'None' if e is None else f'(Some {T.nlist([U.ATTR[x] for x in e.attributes])})'))
-        ren = t.get_renames(a, b)
+        try:
+            ren = t.get_renames(a, b)
+        except Exception as exc:
+            ctx.failure('rename_moves_subtree', f'ListTree({names!r}).get_renames({a!r}, {b!r}) raises {exc!r}',
+                        {'names': names, 'a': a, 'b': b}, {'kind': 'get_renames_exception'})
+            ren = []
         rc.append(T.pair(T.lst(U.enc_name(x) for x in names) if names else '(@nil name)',
                          U.enc_name(a), U.enc_name(b),
                          T.lst(T.pair(U.enc_name(x), U.enc_name(y)) for x, y in ren)
@@ -799,7 +806,7 @@ def sec_tree(ctx) -> None:
             ('tree_get', 'list name * name * option (list N)', gc, 'chk_tree_get'),
             ('tree_renames', 'list name * name * name * list (name * name)', rc, 'chk_tree_renames')):
         JOBS.add(nm, HEADER, typ, cs, chk,
-                 (lambda nm: lambda i: ctx.disagreement(nm, {'case': repr(keep[i])}))(nm), shard=400)
+                 (lambda nm: lambda i: ctx.disagreement(nm, {'case': repr(keep[i])}))(nm), shard=1000)
 
 
 def enc_case(backend, init, steps) -> str:
@@ -868,7 +875,7 @@ def sec_programs(ctx, backend: str, n_prog: int) -> None:
                          {'program': [list(o) for o, *_ in steps],
                           'observed': [(e[0], e[1], e[2]) for _o, e, *_ in steps][:60]})
     JOBS.add('programs_' + backend.replace('+', 'p'), HEADER, typ, cases, chk, on_bad,
-             shard=ctx.scale(40, 60))
+             shard=ctx.scale(70, 100))
 
 
 def run(ctx) -> None:
@@ -889,9 +896,9 @@ def run(ctx) -> None:
     sec_tables(ctx)
     sec_glob(ctx)
     sec_tree(ctx)
-    sec_programs(ctx, 'dict', ctx.scale(240, 6000))
-    sec_programs(ctx, 'md++', ctx.scale(150, 4500))
-    sec_programs(ctx, 'mdfs', ctx.scale(150, 4500))
+    sec_programs(ctx, 'dict', ctx.scale(210, 1500))
+    sec_programs(ctx, 'md++', ctx.scale(140, 900))
+    sec_programs(ctx, 'mdfs', ctx.scale(140, 900))
     JOBS.run(ctx)
 
 
